@@ -376,6 +376,14 @@ class _Frame(PyStub):
     def __len__(self):
         return len(next(iter(self.cols.values()))) if self.cols else 0
 
+    @property
+    def shape(self):
+        return (len(self), len(self.cols))
+
+    @property
+    def empty(self):
+        return len(self) == 0 or not self.cols
+
     def __contains__(self, k):
         return k in self.cols
 
